@@ -341,6 +341,7 @@ let exec (s : t) (verbose : bool) (f : string array) (obs : string option) : str
     ^ events_str (evs @ evs2)
   | "probeclose" -> ""
   | "hostile" -> ""
+  | "pathstyle" -> ""
   | "close" ->
     let (k, evs) = db_close (get_db s) s.disk in
     (match Hashtbl.find_opt cur_handle s.cur with Some h -> lock_close h | None -> ());
